@@ -52,6 +52,22 @@ def rule_r1(ck, prog, rule='C08.R1'):
         mem = {n['name'] for n in body if n['k'] == 'member' and n['name'] in ('first', 'second')}
         early = [n for n in body if n['k'] in ('break', 'return', 'continue')]
         ok = mem == {'first', 'second'} and not early
+    if not ok:
+        # the same fold written as std::accumulate / std::for_each over [map.begin(), map.end()) with the body in a lambda
+        for n in f.nodes:
+            if n['k'] == 'call' and strip_targs(n.get('c', '')) in ('std::accumulate', 'std::for_each') and len(n.get('args', [])) >= 3:
+                ends = [(strip_targs(f.nodes[k].get('c', '')).rsplit('::', 1)[-1], strip_casts(f, f.nodes[k]['obj']).get('id') if f.nodes[k].get('obj') is not None else None)
+                        for a in n['args'][:2] for k in f.subtree(a) if f.nodes[k]['k'] == 'call' and strip_targs(f.nodes[k].get('c', '')).rsplit('::', 1)[-1] in ('begin', 'end', 'cbegin', 'cend')]
+                lams = [prog.funcs[f.nodes[k]['fn']] for k in f.subtree(n['args'][-1]) if f.nodes[k]['k'] == 'lambda' and f.nodes[k].get('fn') in prog.funcs]
+                if [e[0] for e in ends[:2]] not in (['begin', 'end'], ['cbegin', 'cend']) or any(e[1] != f.params[0]['id'] for e in ends[:2]) or not lams:
+                    continue
+                lf = lams[0]
+                mem = {m['name'] for m in lf.nodes if m['k'] == 'member' and m['name'] in ('first', 'second')}
+                branching = [m for m in lf.nodes if m['k'] in ('if', 'cond', 'break', 'continue', 'SwitchStmt') or (m['k'] == 'binop' and m['op'] in ('&&', '||'))]
+                rets = [m for m in lf.nodes if m['k'] == 'return']
+                if mem == {'first', 'second'} and not branching and len(rets) <= 1:
+                    ok = True
+                    loops = [n]
     ck.verdict(ok, rule, f, 'hash-folds-key-and-value', loops[0] if loops else None, 'whole map, key and value folded' if ok else
                'the attribute-set hash does not fold every key and every value: different sets collide systematically / equal sets can differ')
 
@@ -472,6 +488,8 @@ def rule_r7_bulk(ck, prog, rule='C08.R7', classes=('sdk::common::AttributeMap', 
             for n in f.nodes:
                 if n['k'] == 'call' and strip_targs(n.get('c', '')).rsplit('::', 1)[-1] in NON_OVERWRITING and 'map' in strip_targs(n.get('c', '')) and \
                         (n.get('obj') is None or access_path(f, n['obj'])[:1] == ('this',) or f.nodes[n['obj']]['k'] in ('this', 'cast')):
+                    if _overwrites_when_present(prog, f, n) or _insert_only_when_absent(prog, f, n):
+                        continue      # present -> overwritten, absent -> inserted: last write wins all the same
                     bad = (f, n)
         cnt += 1
         site = 'no-first-write-wins-store:%s' % cls.rsplit('::', 1)[-1]
@@ -486,6 +504,65 @@ def rule_r7_bulk(ck, prog, rule='C08.R7', classes=('sdk::common::AttributeMap', 
             ck.holds(rule, _F(), site, None, 'every store of the class goes through an overwriting call')
     return cnt
 
+
+
+def _insert_only_when_absent(prog, f, store):
+    """a non-overwriting store that is taken only when a lookup (find / lower_bound + key comparison) missed, the hit branch
+    assigning the found element's value: present -> overwritten, absent -> inserted, so the last write wins"""
+    g = Graph(prog, f, inline=None, sync_lambdas=False)
+    sp = g.point_of.get((id(g.root_ctx), store['i']))
+    if sp is None:
+        return False
+    its = {}
+    for m in f.nodes:
+        if m['k'] == 'declstmt':
+            for d in m['decls']:
+                if d.get('init') is not None and d['init'] >= 0:
+                    c_ = strip_casts(f, d['init'])
+                    for _ in range(3):
+                        if c_['k'] == 'construct' and len(c_.get('args', [])) == 1:
+                            c_ = strip_casts(f, c_['args'][0])
+                    if c_['k'] == 'call' and strip_targs(c_.get('c', '')).rsplit('::', 1)[-1] in ('find', 'lower_bound') and 'map' in strip_targs(c_.get('c', '')):
+                        its[d['id']] = strip_targs(c_['c']).rsplit('::', 1)[-1]
+    if not its:
+        return False
+
+    def via_it(idx, member):
+        seen_member = False
+        for j in f.subtree(idx):
+            m = f.nodes[j]
+            if m['k'] == 'member' and m.get('name') == member:
+                seen_member = True
+            if m['k'] == 'ref' and m.get('id') in its and seen_member:
+                return m['id']
+        return None
+    fixes = []
+    for p in g.points:
+        n = p.n
+        if n is None:
+            continue
+        lhs = n['lhs'] if (n['k'] == 'binop' and n['op'] == '=') else (n.get('obj') if (n['k'] == 'call' and n.get('op') == '=') else None)
+        if lhs is not None and via_it(lhs, 'second') is not None:
+            fixes.append((p, via_it(lhs, 'second')))
+    if not fixes:
+        return False
+    fp, it = fixes[0]
+
+    def hit_edge(a, b, lab):
+        if not lab or not isinstance(lab[0], int):
+            return False
+        c = comparison(lab[1], lab[0])
+        if not c:
+            return False
+        if its[it] == 'find':
+            names = {strip_targs(lab[1].nodes[k].get('c', '')).rsplit('::', 1)[-1] for k in lab[1].subtree(lab[0]) if lab[1].nodes[k]['k'] == 'call'}
+            refs = {lab[1].nodes[k].get('id') for k in lab[1].subtree(lab[0]) if lab[1].nodes[k]['k'] == 'ref'}
+            return it in refs and ('end' in names or 'cend' in names) and lab[2] is (c[0] == '!=')
+        return c[0] == '==' and lab[2] is True and (via_it(c[1], 'first') == it or via_it(c[2], 'first') == it)
+    exclusive = fp.id not in g.reachable_from([q for (q, _l) in sp.succ]) and sp.id not in g.reachable_from([q for (q, _l) in fp.succ])
+    # the overwrite is behind the hit edge, the insertion is not reachable over it
+    return exclusive and g.must_pass_edge(fp, hit_edge) and sp.id not in g.reachable_from(
+        [q for p_ in g.points for (q, lab) in p_.succ if hit_edge(p_, q, lab)])
 
 
 def _overwrites_when_present(prog, f, store):
@@ -541,7 +618,8 @@ def rule_r7(ck, prog, rule='C08.R7', setters=('sdk::common::OrderedAttributeMap:
             stores = [n for n in f.nodes if n['k'] == 'call' and n.get('obj') is not None and
                       strip_targs(n.get('c', '')).rsplit('::', 1)[-1] in NON_OVERWRITING + ('operator[]', 'insert_or_assign') and
                       ('map' in strip_targs(n.get('c', '')))]
-            bad = [n for n in stores if strip_targs(n.get('c', '')).rsplit('::', 1)[-1] in NON_OVERWRITING and not _overwrites_when_present(prog, f, n)]
+            bad = [n for n in stores if strip_targs(n.get('c', '')).rsplit('::', 1)[-1] in NON_OVERWRITING and not _overwrites_when_present(prog, f, n) and
+                   not _insert_only_when_absent(prog, f, n)]
             good = [n for n in stores if n not in bad]
             if bad:
                 ck.violation(rule, f, 'last-write-wins-store', bad[0],
